@@ -417,6 +417,232 @@ class History:
             c["bulk_blocks_written_before_validation"] = c.get("bulk_blocks_written_before_validation", 0) + len(set(rows_after) - set(rows_before))
             self.diverged = True        # the store now holds blocks the harness world does not: end this history
 
+    # ---------------------------------------------------------------------------------------------------------------
+    # stories on the DOWNLOAD route: what the node had asked for, what was announced, what arrived unrequested in between
+    # ---------------------------------------------------------------------------------------------------------------
+    def peer_obj(self, raw):
+        for p in self.node.lp.network_manager.connected_peers.values():
+            if p.sock is raw.peer:
+                return p
+        return None
+
+    def back_to(self, before_cs, rows_before):
+        """the node back in the state both sides agree on; the per-peer download flags are cleared (the stories are meant
+        to be independent of each other)"""
+        cm = self.node.lp.chain_manager
+        if cm.coinstate is not before_cs and gen.fingerprint(cm.coinstate) != gen.fingerprint(before_cs):
+            self.store.write_buffer.clear()
+            cm.set_coinstate(before_cs)
+        for p in self.node.lp.network_manager.connected_peers.values():
+            p.waiting_for_inventory = False
+            p.inventory_messages = []
+        cm.actively_fetching_blocks_from_peers = []
+        for r in self.peers:
+            r.take_received()
+        if set(self.rows()) - set(rows_before):
+            self.diverged = True
+
+    def open_round(self):
+        """the node's timers fire until it has asked one of its peers for blocks; returns (harness end of that peer, id of the
+        node's request) or None"""
+        node, net = self.node, self.net
+        for r in self.peers:
+            r.take_received()
+        head = self.world.chain.blocks.get(node.lp.chain_manager.coinstate.current_chain_hash)
+        for _try in range(6):
+            net.clock.t = self.world.now = max(self.world.now, (head.ts if head else 0) + 400) + 61
+            net.do_step(node)
+            net.settle(node)
+            for r in self.active_raws():
+                msgs, _rest = simnet.Wire.parse(r.take_received())
+                gb = [m for m in msgs if m["msg"]["type"] == "get_blocks"]
+                po = self.peer_obj(r)
+                if gb and po is not None and po.waiting_for_inventory:
+                    return r, gb[-1]["header"]["id"]
+        return None
+
+    def download_route_story(self, classes):
+        mon, c, world, node, rng = self.mon, self.mon.c, self.world, self.node, self.rng
+        cm = node.lp.chain_manager
+        before_cs = cm.coinstate
+        rows_before = self.rows()
+        head = before_cs.current_chain_hash
+        if head not in world.chain.blocks or len(self.active_raws()) < 2:
+            return
+        story = rng.choice(["child-before-parent-answer", "unrequested-while-round-open", "announced-then-unrequested",
+                            "late-answer-after-child", "answers-lower-block-refusal", "same-header-other-body"])
+        c["download_route_stories"] = c.get("download_route_stories", 0) + 1
+        c["story:" + story] = c.get("story:" + story, 0) + 1
+        ms = self.wire.ms
+        names = sorted(n for n in classes if not n.startswith("valid") and n not in VALID)
+        w = {"kind": "download-route-story", "story": story, "chain": gen.blocks_hex(world, world.chain.order[1:])}
+
+        def bad_on(tmp, pid):
+            for _t in range(6):
+                cls = rng.choice(names)
+                try:
+                    built = classes[cls](tmp, pid, rng)
+                except Exception:
+                    built = None
+                if not built:
+                    continue
+                rb = built[0]
+                codes = ref.block_codes(tmp.chain, rb, max(world.now, rb.ts))
+                if codes and "parent-unknown" not in codes and "future" not in codes:
+                    return rb, cls, codes
+            return None
+
+        def valid_on(tmp, pid, dt=1):
+            parent = tmp.chain.blocks[pid]
+            rb, real = tmp.assemble(pid, [], parent.ts + dt, rng.choice(tmp.keys)[1], route="ref")
+            if tmp.accept(rb, real, validate=False) is None:
+                raise RuntimeError("generator")
+            return rb, real
+
+        def refused(rb, cls, codes, how):
+            if rb.id() in cm.coinstate.block_by_hash:
+                mon.v("rejected-block-in-chain-state:" + "+".join(sorted(codes)), "class %s: a block that breaks %s is part of the node's "
+                      "chain state (%s)" % (cls, sorted(codes), how), dict(w, block=rb.enc().hex()))
+                return False
+            return True
+        try:
+            tmp = world.fork()
+            if story == "child-before-parent-answer":
+                p_rb, p_real = valid_on(tmp, head)
+                got = bad_on(tmp, p_rb.id())
+                if not got:
+                    return
+                c_rb, cls, codes = got
+                self.net.clock.t = world.now = max(world.now, c_rb.ts + 10)
+                a, b = rng.sample(self.active_raws(), 2)
+                a.push(self.wire.block(bridge.rblock_to_real(c_rb)))
+                self.net.settle(node)
+                b.push(self.wire.block(p_real, in_response_to=rng.choice([7, 4001])))
+                self.net.settle(node)
+                refused(c_rb, cls, codes, "relayed before its parent; the parent then arrived as an answer to a request")
+            elif story in ("unrequested-while-round-open", "announced-then-unrequested"):
+                got = bad_on(tmp, head)
+                opened = self.open_round() if got else None
+                if not opened:
+                    return
+                rb, cls, codes = got
+                raw, req_id = opened
+                self.net.clock.t = world.now = max(world.now, rb.ts + 10)
+                if story == "announced-then-unrequested":
+                    raw.push(self.wire.frame(ms.InventoryMessage([ms.InventoryItem(ms.DATA_BLOCK, rb.id())]), in_response_to=req_id))
+                    self.net.settle(node)
+                    raw.take_received()
+                raw.push(self.wire.block(bridge.rblock_to_real(rb)))         # (in_response_to = 0: not an answer)
+                self.net.settle(node)
+                refused(rb, cls, codes, "relayed unrequested by the peer the node had asked for blocks"
+                        + (", after announcing it" if story == "announced-then-unrequested" else " (request still unanswered)"))
+            elif story == "late-answer-after-child":
+                x_rb, x_real = valid_on(tmp, head)
+                y_rb, y_real = valid_on(tmp, x_rb.id())
+                opened = self.open_round()
+                if not opened:
+                    return
+                raw, req_id = opened
+                self.net.clock.t = world.now = max(world.now, y_rb.ts + 10)
+                raw.push(self.wire.frame(ms.InventoryMessage([ms.InventoryItem(ms.DATA_BLOCK, x_rb.id())]), in_response_to=req_id))
+                self.net.settle(node)
+                msgs, _rest = simnet.Wire.parse(raw.take_received())
+                gd = [m for m in msgs if m["msg"]["type"] == "get_data"]
+                others = [r for r in self.active_raws() if r is not raw]
+                if not gd or not others:
+                    return
+                q = rng.choice(others)
+                q.push(self.wire.block(x_real))
+                self.net.settle(node)
+                q.push(self.wire.block(y_real))
+                self.net.settle(node)
+                fp = gen.fingerprint(cm.coinstate)
+                raw.push(self.wire.block(x_real, in_response_to=gd[-1]["header"]["id"]))      # the late answer
+                self.net.settle(node)
+                cs2 = cm.coinstate
+                childless = set(cs2.block_by_hash.keys()) - {b.previous_block_hash for b in cs2.block_by_hash.values()}
+                if set(cs2.heads.keys()) != childless or gen.fingerprint(cs2) != fp:
+                    mon.v("duplicate-delivery-changed-state", "a block the node had asked one peer for arrived from another peer together with "
+                          "its child; the first peer's late answer then changed the chain state (tips reported: %d, stored blocks without "
+                          "children: %d)" % (len(cs2.heads), len(childless)), w)
+                # (X and Y are valid and the node has validated them: both sides adopt them)
+                if x_rb.id() in cs2.block_by_hash and y_rb.id() in cs2.block_by_hash:
+                    for rb_, real_ in ((x_rb, x_real), (y_rb, y_real)):
+                        world.cs = world.cs.add_block_no_validation(real_)
+                        world.accept(rb_, real_, cs=world.cs)
+                    before_cs = cm.coinstate
+                    rows_before = self.rows()
+            elif story == "answers-lower-block-refusal":
+                us = []
+                pid = head
+                for _k in range(rng.choice([2, 4])):
+                    u = valid_on(tmp, pid)
+                    us.append(u)
+                    pid = u[0].id()
+                b2 = valid_on(tmp, head, dt=2)
+                got = bad_on(tmp, pid)
+                u5 = valid_on(tmp, pid, dt=3)
+                if not got:
+                    return
+                bad, cls, codes = got
+                self.net.clock.t = world.now = max(world.now, bad.ts + 10, u5[0].ts + 10)
+                a, b = rng.sample(self.active_raws(), 2)
+                for k, (rb_, real_) in enumerate(us):
+                    a.push(self.wire.block(real_, in_response_to=4100 + k))
+                self.net.settle(node)
+                b.push(self.wire.block(b2[1]))
+                self.net.settle(node)
+                b.push(self.wire.block(bridge.rblock_to_real(bad)))
+                self.net.settle(node)
+                refused(bad, cls, codes, "relayed on top of blocks taken as download answers")
+                a.push(self.wire.block(u5[1]))
+                self.net.settle(node)
+                rows = self.rows()
+                held = [x for x in us + [b2, u5] if x[0].id() in cm.coinstate.block_by_hash]
+                missing = [x[0].height for x in held if rows.get(x[0].id(), 0) != 1]
+                if u5[0].id() in cm.coinstate.block_by_hash and missing:
+                    mon.v("accepted-block-not-stored-after-rejection", "download answers, then a lower relayed block, a refused block and a "
+                          "valid relayed block: blocks at heights %s are part of the chain state but have no row in the store (write buffer "
+                          "holds %d)" % (missing, len(self.store.write_buffer)), w)
+                if u5[0].id() in cm.coinstate.block_by_hash and not missing and len(held) == len(us) + 2:
+                    for rb_, real_ in us + [b2, u5]:
+                        world.cs = world.cs.add_block_no_validation(real_)
+                        world.accept(rb_, real_, cs=world.cs)
+                    before_cs = cm.coinstate
+                    rows_before = self.rows()
+            else:
+                h_rb, h_real = valid_on(tmp, head)
+                bad_built = cstream.v_reward_plus_one(tmp, h_rb.id(), rng)
+                if not bad_built:
+                    return
+                bad = bad_built[0]
+                self.net.clock.t = world.now = max(world.now, bad.ts + 10)
+                a, b = rng.sample(self.active_raws(), 2)
+                a.push(self.wire.block(h_real, in_response_to=9))
+                self.net.settle(node)
+                b.push(self.wire.block(bridge.rblock_to_real(bad)))
+                self.net.settle(node)
+                fr = bytearray(self.wire.block(h_real, in_response_to=9))
+                fr[-rng.randint(1, 60)] ^= 1 << rng.randrange(8)          # the same header over another body
+                a.push(bytes(fr))
+                self.net.settle(node)
+                heldb = cm.coinstate.block_by_hash.get(h_rb.id())
+                if heldb is not None:
+                    try:
+                        same = heldb.serialize() == h_real.serialize()
+                    except Exception:
+                        same = False
+                    if not same:
+                        mon.v("rejected-block-in-chain-state:merkle", "a block delivered, dropped by a fall-back and delivered again with its "
+                              "header over ANOTHER body (both times as a download answer) is held by the node with that other body", w)
+            if node.escaped:
+                mon.v("exception-escaped-event-handler", node.escaped[0][:300], w)
+                node.escaped.clear()
+        except Exception:
+            c["class_material_missing"] += 1
+        finally:
+            self.back_to(before_cs, rows_before)
+
     def run(self, ndeliv, classes):
         rng, world, c = self.rng, self.world, self.mon.c
         names = sorted(classes)
@@ -432,6 +658,11 @@ class History:
                 rb, cls0 = rng.choice(self.rejected_blocks[-30:])
                 c["redelivered_rejected"] = c.get("redelivered_rejected", 0) + 1
                 self.deliver(rb, cls0 + "@re-delivered", None, None)
+                if getattr(self, "diverged", False):
+                    break
+                continue
+            if 0.53 <= r < 0.60:
+                self.download_route_story(classes)
                 if getattr(self, "diverged", False):
                     break
                 continue
